@@ -8,7 +8,10 @@ def flo_worker(ctx, job, feats, monitor_fns, refcompare=True, nontrivial=None, s
     from vf.flo import runner, monitors, refint, compare
     for seed, fi in job["items"]:
         rng = random.Random(seed)
-        prog = gen.gen_program(rng, gen.pickfeat(feats, fi))
+        if feats[fi % len(feats)].get("family") == "nested":
+            prog = gen.nested_condaux_program(rng)
+        else:
+            prog = gen.gen_program(rng, gen.pickfeat(feats, fi))
         if mutate:
             mutate(rng, prog)
         text = P.render(prog)
